@@ -62,6 +62,13 @@ type Case struct {
 	Flags    int    `json:"flags"`         // 1 BOT, 2 EOT, 4 PRESERVE, 8 REMOVE default ignorables
 	// Synth: the font is generated from this record (internal/synthfont); Font is a name only
 	Synth *synthfont.Spec `json:"synth,omitempty"`
+	// instance settings (instance_test.go), the same for the whole text and every piece: design-space
+	// variation settings OR normalized coordinates by axis order, pixels per em, point size
+	Vars   []Var   `json:"variations,omitempty"`
+	Coords []int   `json:"normalized_coords,omitempty"`
+	XPpem  int     `json:"x_ppem,omitempty"`
+	YPpem  int     `json:"y_ppem,omitempty"`
+	Ptem   float32 `json:"ptem,omitempty"`
 }
 
 func (c *Case) runes() []rune {
@@ -92,6 +99,9 @@ func (c *Case) wellFormed() error {
 			return fmt.Errorf("invalid feature")
 		}
 	}
+	if !c.instanceWellFormed() {
+		return fmt.Errorf("invalid instance settings")
+	}
 	return nil
 }
 
@@ -103,9 +113,13 @@ type fontEntry struct {
 	rel                      string
 	index                    int
 	face                     *font.Face
-	hb                       *hbref.Face     // for triage only
-	syll                     []*syllScript   // syllabic scripts the font covers (syll_test.go)
-	units                    [][]rune        // pieces of the texts upstream's tests shape with this font
+	hb                       *hbref.Face   // for triage only
+	syll                     []*syllScript // syllabic scripts the font covers (syll_test.go)
+	units                    [][]rune      // pieces of the texts upstream's tests shape with this font
+	axes                     []axis        // fvar axes (instance_test.go)
+	device                   bool          // GPOS/GDEF carry hinting Device tables (devices_test.go)
+	pairs                    [][2]rune     // pairs the PairPos subtables list, as runes
+	pairSet                  map[[2]rune]bool
 	synth                    *synthfont.Spec // generated font (synth_test.go)
 	synthDeletes, synthGrows bool
 	// the reference reads the cmap differently: it was given the port's mapping (see refFace)
@@ -176,6 +190,11 @@ func loadFont(rel string, index int) (*fontEntry, error) {
 		fe.units = upstreamUnits(upstreamFor(rel))
 	}
 	fe.syll = syllScriptsFor(func(r rune) bool { _, ok := fe.face.NominalGlyph(r); return ok })
+	fe.axes = loadAxes(rel, index)
+	for _, d := range deviceFonts {
+		fe.device = fe.device || d == key
+	}
+	loadPairs(fe)
 	for _, name := range textgen.ScriptNames {
 		al := textgen.Alphabets[name]
 		n := 0
@@ -265,7 +284,15 @@ func pickFonts(n int) []*fontEntry {
 				}
 			}
 			k := "plain"
+			isDevice := false
+			for _, d := range deviceFonts {
+				isDevice = isDevice || d == fmt.Sprintf("%s#%d", rel, i)
+			}
 			switch {
+			case isDevice:
+				k = "device" // hinting Device tables: always in the sample (devices_test.go)
+			case tr.Fvar && (tr.GSUB || tr.GPOS):
+				k = "variable" // variable fonts with layout tables: a stratum of their own
 			case !unicodeCmap(lds[i]):
 				// no Unicode/Microsoft cmap subtable: the port falls back to a Macintosh subtable and
 				// most characters of any text are .notdef (a stratum of its own: mixed .notdef/real
@@ -286,7 +313,7 @@ func pickFonts(n int) []*fontEntry {
 	// single-lookup test fonts, the kern-only and the plain ones
 	order := []ref{}
 	names := []string{"layout-large", "layout-large", "layout-medium", "layout-large", "layout-large", "layout-medium", "layout-small",
-		"layout-large", "layout-large", "layout-medium", "kern", "layout-large", "layout-small", "plain", "cmap-fallback"}
+		"layout-large", "layout-large", "layout-medium", "kern", "layout-large", "layout-small", "plain", "cmap-fallback", "variable", "variable", "device"}
 	lists := map[string][]ref{}
 	keys := make([]string, 0, len(strata))
 	for k := range strata {
@@ -435,6 +462,7 @@ func panicSite(stack []byte) []string {
 }
 
 type shaper struct {
+	face  *font.Face
 	font  *harfbuzz.Font
 	feats []harfbuzz.Feature
 	props harfbuzz.SegmentProperties // resolved once on the whole item, reused for every piece
@@ -463,7 +491,10 @@ func (s *shaper) shapePiece(c *Case, text []rune, start, length int, flags harfb
 }
 
 func newShaper(fe *fontEntry, c *Case) (*shaper, error) {
-	s := &shaper{font: harfbuzz.NewFont(font.NewFace(fe.face.Font))}
+	face := font.NewFace(fe.face.Font)
+	applyInstance(face, c)
+	s := &shaper{font: harfbuzz.NewFont(face), face: face}
+	s.font.Ptem = c.Ptem
 	for _, f := range c.Features {
 		end := f.End
 		if end < 0 {
@@ -653,6 +684,7 @@ func TestRefVerifyWorker(t *testing.T) {
 		fmt.Println("REF_VERIFY_UNAVAILABLE")
 		return
 	}
+	applyRefInstance(fe.refFace(), &c) // the instance the port shaped: coordinates, ppem, ptem
 	// the plain shaping first (what the reference makes of the input), then the verification, which
 	// may abort the process
 	var sb strings.Builder
@@ -738,6 +770,7 @@ func checkCase(t ev.TB, fe *fontEntry, c *Case, survey func(check string, f fail
 	if fe.synth != nil {
 		labels = append(labels, synthLabels(fe, graphemesReversed(s.props.Script, s.props.Direction))...)
 	}
+	labels = append(labels, instanceLabels(fe, c, s.face, text[itemStart:itemEnd])...)
 	n := len(whole)
 
 	fail := func(check string, pieces []G, cuts []int, format string, args ...any) {
@@ -1038,7 +1071,18 @@ func genCase(t *rapid.T, fonts []*fontEntry) (*fontEntry, *Case) {
 		long = true
 		syll = rapid.SampledFrom(syllScriptsAny()).Draw(t, "syllableScriptAny")
 	}
-	if long {
+	// fonts that list kerning pairs: a quarter of the texts (half on variable and device-table
+	// fonts) are made of listed pairs, so that pair positioning is dense
+	pairShare := 0
+	if len(fe.pairs) > 0 {
+		pairShare = 2
+		if len(fe.axes) > 0 || fe.device {
+			pairShare = 4
+		}
+	}
+	if !long && pairShare > 0 && rapid.IntRange(0, 7).Draw(t, "pairText") < pairShare {
+		text = genPairText(t, fe, opts.MaxLen)
+	} else if long {
 		text, _ = genSyllableText(t, syll, units, ev.Scale(1, 2))
 		if units != nil {
 			syll = nil // script and direction: the ordinary draws
@@ -1094,6 +1138,7 @@ func genCase(t *rapid.T, fonts []*fontEntry) (*fontEntry, *Case) {
 	}
 	c.Cluster = rapid.SampledFrom([]int{0, 0, 0, 1}).Draw(t, "clusterLevel")
 	c.Flags = rapid.SampledFrom([]int{3, 3, 3, 3, 3, 0, 1, 2, 3 | 4, 3 | 8}).Draw(t, "flags")
+	genInstance(t, fe, c)
 	return fe, c
 }
 
